@@ -100,6 +100,8 @@ func (l *layState) Clone() any {
 }
 
 type loopIter struct {
+	Before         []*atom // what the carried sequence held before the loop
+	IncludesBefore bool    // the result segment stands for Before + everything appended
 	Var     string
 	Entry   *segment
 	Result  *segment
@@ -455,6 +457,7 @@ func (m *layMachine) loop(in *Interp, st *State, s ast.Stmt) []*State {
 	it.Result.Iter = it
 	it.Entry.Iter = it
 	before, _ := seqAtoms(st.Vars[cv])
+	it.Before = before
 	// run the body once
 	b := st.Clone()
 	b.Vars[cv] = seqTerm([]*atom{{Seg: it.Entry, Node: s}})
@@ -538,6 +541,7 @@ func (m *layMachine) loop(in *Interp, st *State, s ast.Stmt) []*State {
 	} else {
 		// out* already contains whatever was there before the loop (entry of the first iteration)
 		st.Vars[cv] = seqTerm([]*atom{{Seg: it.Result, Node: s}})
+		it.IncludesBefore = true
 		it.Result.Src = tOpaque(cname + "* (prefix: " + fmt.Sprint(len(before)) + " atoms)")
 		if len(before) > 0 {
 			st.flag("sequence built by a loop had content before the loop at " + c.Pos(s))
@@ -626,6 +630,11 @@ type caseLayouts struct {
 
 // runCase symbolically executes the compile-case of the given label.
 func (m *layMachine) runCase(cs *bigSwitch, label string) (*caseLayouts, error) {
+	return m.runCaseWith(cs, label, nil)
+}
+
+// runCaseWith: like runCase, with extra memory cells bound to constants (e.g. the callee name).
+func (m *layMachine) runCaseWith(cs *bigSwitch, label string, bind map[string]*T) (*caseLayouts, error) {
 	sc := cs.ByLabel[label]
 	if sc == nil {
 		return nil, fmt.Errorf("no compile-case for %q", label)
@@ -651,6 +660,9 @@ func (m *layMachine) runCase(cs *bigSwitch, label string) (*caseLayouts, error) 
 	defer func() { m.in.fnStack = m.in.fnStack[:len(m.in.fnStack)-1] }()
 	// bind tok.Symbol to the label so nested tests on it fold
 	st.Mem["tok.Symbol"] = tStr(label)
+	for k, v := range bind {
+		st.Mem[k] = v
+	}
 	res := m.in.execStmts(sc.Clause.Body, []*State{st})
 	out := &caseLayouts{Label: label, Clause: sc.Clause, Iters: m.iters}
 	var resObj types.Object
